@@ -480,6 +480,8 @@ class SequenceTokenCrossEntropyLoss(Metric):
     pred = prediction if self.pred_key is None else prediction[self.pred_key]
     target_weight = get_target_weight(target, self.masked_target_values)
     token_loss = unreduced_cross_entropy_loss(target, pred)
+    # Masked tokens contribute exactly 0, also when their loss is not finite.
+    token_loss = jnp.where(target_weight == 0, 0., token_loss)
     if self.per_position:
       return MeanStat.new(token_loss * target_weight, target_weight)
     return MeanStat.new(
@@ -526,6 +528,8 @@ class SequenceCrossEntropyLoss(Metric):
     pred = prediction if self.pred_key is None else prediction[self.pred_key]
     target_weight = get_target_weight(target, self.masked_target_values)
     token_loss = unreduced_cross_entropy_loss(target, pred)
+    # Masked tokens contribute exactly 0, also when their loss is not finite.
+    token_loss = jnp.where(target_weight == 0, 0., token_loss)
     # Change weight from number of non masked target tokens to 1 if the sequence
     # contains any non masked tokens or 0 if the entire sequence is masked.
     return MeanStat.new(
